@@ -29,7 +29,8 @@ MAPPINGS = {
     'float_str': {0: 2.5, 2: 'a b'},
     'empty': {},
     'zeros': {0: 0, 1: 0.0, 3: 7},     # falsy values are values, only None entries are dropped
-    'bigints': {0: 2 ** 53 + 1, 2: -(2 ** 62) - 3},    # integers that no double holds exactly
+    'bigints': {0: 2 ** 53 + 1, 2: -(2 ** 62) - 3, 1: 2.0 / 3.0},    # integers that no double holds
+                                                                     # exactly; a float with 16 digits
     'quoting': {0: 'see "fig 2"', 1: 'a,b', 3: "it's"},      # strings the table writer has to quote
 }
 FIELDS = ['group', 'q']
@@ -325,7 +326,10 @@ def make_bases(ctx):
                 'channel_map': 'perm' if raw else 'identity'}
         if raw:
             # a float recording with a few non-finite samples: the store holds what the raw data holds
-            spec.update(raw_dtype='float32', raw_nonfinite=True)
+            spec.update(raw_dtype='float32', raw_nonfinite=True,
+                        # 12-sample chunks (600 s at 0.02 Hz) and two files: the 40-sample recording
+                        # spans four chunks, spikes lie in all of them
+                        sample_rate=0.02, raw_files=2)
         if name == 'noraw':
             # this dataset comes with a metadata file whose content equals one of the mappings of
             # the alphabet (saving another mapping and then this one again must rewrite the file)
